@@ -47,6 +47,30 @@ def base_op(op):
     return FACADE_API[head] + " " + rest if head in FACADE_API else op
 
 
+AUX_OPS = ("scores", "substream")
+
+
+def is_aux(op):
+    """`scores <p>` (read-only print of an address store) and `substream <p>` (a protocol opens a substream: only the
+    substream-id counter moves) are not inputs of the manager: the ledgers skip them."""
+    return op.split(" ", 1)[0] in AUX_OPS
+
+
+def parse_scores(line):
+    """`sc=<addr>=<score>,..` -> {addr: score} (None if the line is something else)."""
+    if line is None or not line.startswith("sc="):
+        return None
+    res = {}
+    for item in line[3:].split(","):
+        if item and item != "-":
+            a, _, v = item.rpartition("=")
+            try:
+                res[a] = int(v)
+            except ValueError:
+                return None
+    return res
+
+
 def parse_obs(line):
     """-> dict or None for panic/skipped/bad-op/ok(limits)."""
     if line is None or line.startswith("panic") or line in ("skipped", "bad-op", "ok", "case") or " ; " not in line:
@@ -127,7 +151,7 @@ class Ghost:
     # -- contract (Model/Manager/Dial.lean `allowed`)
     def allowed(self, t):
         if t[0] in ("addknown", "dial", "dialaddr", "limits", "protocols", "pdial", "pdialaddr", "pfill", "pdrain",
-                    "fdial", "fdialaddr", "fnext", "facade"):
+                    "fdial", "fdialaddr", "fnext", "facade") + AUX_OPS:
             return True
         if t[0] == "accepted":
             return t[2] == "ok" and self.owed.get(t[1], {}).get("phase") == "accept"
@@ -322,6 +346,9 @@ def gen_case(rng, sess, n_ops, npeers=3, chaos=0.0, limits=None, protocols=None,
         cands.append((4, lambda p=p: f"{dialaddr_op} {addr(p, rng.randrange(3))} as={new_label()}"))
         if facade:
             cands.append((1, lambda: "fnext"))
+        # a protocol opens a substream (the OTHER id counter moves), a look at an address store
+        cands.append((2, lambda p=p: f"substream {p}"))
+        cands.append((1, lambda p=p: f"scores {p}"))
         # inbound sockets
         cands.append((1, lambda: f"ev pendingin {new_label()}"))
         cands.append((3, lambda p=p: f"ev established {p} {rng.choice(sorted(g.fresh)) if g.fresh and rng.random() < 0.7 else new_label()} "
@@ -376,7 +403,7 @@ def gen_case(rng, sess, n_ops, npeers=3, chaos=0.0, limits=None, protocols=None,
         op = f()
         out = sess.send(op)
         ops.append(op)
-        if out == "busy":
+        if out == "busy" or is_aux(op):
             continue
         obs = parse_obs(out)
         g.update(len(ops) - 1, op, obs)
@@ -402,12 +429,28 @@ def gen_case(rng, sess, n_ops, npeers=3, chaos=0.0, limits=None, protocols=None,
     return ops
 
 
+def boundary_addr(rng, p):
+    """A well-formed address of peer p whose target is a boundary case of an outbound connection."""
+    host = rng.choice(["ip4.0", "ip4.99999", "ip4.99998", "ip4.99997", "ip4.99996", "ip6.0", f"ip4.{10 + p}", f"dns.{p}", f"ip6.{p}"])
+    return f"{host}/tcp.{rng.choice([0, 0, 65535, 1000 + p])}/p2p.{p}"
+
+
 # adversarial multiaddress shapes for dial_address
 def adversarial_addr(rng, peers=(1, 2, 3)):
     p, q = rng.choice(peers), rng.choice(peers)
     n = rng.randrange(1, 9)
     host = rng.choice([f"ip4.{n}", f"ip4.{300 + n}", f"ip6.{n}", f"dns.{n}", f"dns4.{n}", f"dns6.{n}", "ip4.0", "ip6.0", "ip4.99"])
+    # boundary targets of an outbound connection: port 0 / 65535, the unspecified, broadcast, loopback, multicast and
+    # link-local IPv4 addresses, the unspecified IPv6 address — in the shape dial_address accepts
+    bhost = rng.choice(["ip4.0", "ip4.99999", "ip4.99998", "ip4.99997", "ip4.99996", "ip6.0", host, host])
+    bport = rng.choice([0, 0, 65535, n])
     shapes = [
+        f"{bhost}/tcp.{bport}/p2p.{p}",
+        f"{bhost}/tcp.{bport}/p2p.{p}",
+        f"{bhost}/tcp.{bport}/p2p.{p}",
+        f"{host}/tcp.0/p2p.{p}",
+        f"{bhost}/tcp.{bport}",
+        f"{bhost}/tcp.{bport}/p2p.{p}/p2p.{q}",
         f"{host}/tcp.{n}/p2p.{p}",
         f"{host}/tcp.{n}/p2p.{p}/p2p.{q}",
         f"{host}/tcp.{n}/p2p.{p}/other.0/p2p.{q}",
@@ -452,7 +495,19 @@ def gen_addr_case(rng, sess, n_ops):
         r = rng.random()
         dial_owed = [(c, o) for c, o in sorted(g.owed.items()) if o["phase"] == "dial"]
         acc = [c for c, o in sorted(g.owed.items()) if o["phase"] == "accept"]
-        if r < 0.6 or not (dial_owed or acc):
+        open_owed = [(c, o) for c, o in sorted(g.owed.items()) if o["phase"] == "open"]
+        if r < 0.08:
+            # boundary targets through the address book: dial(peer) hands them to Transport::open
+            p = rng.choice([1, 2, 3])
+            op = f"addknown {p} " + ",".join(boundary_addr(rng, p) for _ in range(rng.choice([1, 2])))
+        elif r < 0.16:
+            n += 1
+            op = f"dial {rng.choice([1, 2, 3])} as=c{n}"
+        elif open_owed and r < 0.5:
+            c, o = rng.choice(open_owed)
+            addrs = o["addrs"] or [addr(o["peer"], 0)]
+            op = rng.choice([f"ev openfail {c} errs=" + openfail_errs(rng, addrs), f"ev opened {c} {rng.choice(addrs)}"])
+        elif r < 0.6 or not (dial_owed or acc):
             n += 1
             op = f"dialaddr {adversarial_addr(rng)} as=c{n}"
         elif acc and (r < 0.75 or not dial_owed):
@@ -537,6 +592,8 @@ def stats(case, out, acc):
             bump(acc, "panic")
         if o == "busy":
             bump(acc, "busy:" + k)
+        if o.startswith("idclash"):
+            bump(acc, "idclash")
         ob = parse_obs(o)
         if ob:
             if ob["susp"] == "y":
@@ -571,6 +628,11 @@ def nontrivial(case, out):
 
 
 CORPUS = [
+    # boundary hosts in the address book: which of them get the public-address bonus, and the order dial() hands them over
+    ["limits none 2", "addknown 1 ip4.99999/tcp.1/p2p.1,ip4.99998/tcp.0/p2p.1,ip4.99997/tcp.65535/p2p.1,ip4.99996/tcp.1/p2p.1,"
+     "ip4.300/tcp.1/p2p.1,ip4.12/tcp.1/p2p.1,ip6.4/tcp.1/p2p.1,dns.1/tcp.0/p2p.1,ip4.0/tcp.1/p2p.1,ip6.0/tcp.1/p2p.1", "scores 1",
+     "dialaddr ip4.99998/tcp.65535/p2p.2 as=c1", "ev established 2 c1 ip4.99998/tcp.65535/p2p.2 dialer", "accepted c1 ok",
+     "dial 1 as=c2", "scores 1", "ev openfail c2", "substream 1", "scores 1"],
     # finding (d): outbound limit 1, two concurrent dials both establish (fixed: second gets a dial failure)
     ["limits none 1", "dialaddr ip4.11/tcp.1001/p2p.1 as=c1", "dialaddr ip4.12/tcp.1002/p2p.2 as=c2",
      "ev established 1 c1 ip4.11/tcp.1001/p2p.1 dialer", "ev established 2 c2 ip4.12/tcp.1002/p2p.2 dialer",
@@ -586,3 +648,217 @@ CORPUS = [
     ["limits 1 1", "addknown 1 ip4.11/tcp.1001/p2p.1,ip4.301/tcp.2001/p2p.1", "dial 1 as=c1",
      "ev established 1 c2 ip4.51/tcp.4000 listener", "accepted c2 ok", "ev closed 1 c2", "dial 1 as=c3", "ev openfail c3 errs=ip4.301/tcp.2001/p2p.1=t"],
 ]
+
+
+# ---------------------------------------------------------------------------------------------------------------
+# Address scores at manager level (C10 pulls these in through the engine's `extra_cases`): "dial successes and
+# failures re-score exactly the address used" — in EVERY peer state the outcome can arrive in.
+
+SCORE_OK, SCORE_FAIL, SCORE_ADDR_FAIL = 100, -100, -2**31
+FAIL_SCORE = {"t": SCORE_FAIL, "n": SCORE_FAIL, "a": SCORE_ADDR_FAIL}
+
+
+def looks_public(a):
+    """The harness's address convention: ip4.n is public for 256 <= n < 99990 and for the multicast target 99997
+    (IpNetwork::is_global says so), DNS names count as public."""
+    head = a.split("/")[0]
+    kind, _, n = head.partition(".")
+    if kind in ("dns", "dns4", "dns6"):
+        return True
+    return kind == "ip4" and n.isdigit() and (256 <= int(n) < 99990 or int(n) == 99997)
+
+
+def score_case(rng):
+    """One scripted manager-level history around a dial outcome, `scores` taken right before and right after it.
+    The shapes differ in the state the peer is in when the outcome arrives: Dialing, Opening, Connected with the dial
+    parked as the secondary record (the remote's own connection won the simultaneous-dial race), Disconnected with a
+    dial record (that connection closed again), Connected with a secondary connection."""
+    p = rng.choice([1, 2, 3])
+    j = rng.randrange(3)
+    a = addr(p, j)
+    others = [addr(p, x) for x in range(3) if x != j]
+    k = rng.choice("ttan")
+    lim = rng.choice([("none", "none"), ("none", "none"), ("2", "2"), ("3", "2"), ("1", "1")])
+    ops = [f"limits {lim[0]} {lim[1]}"]
+    inbound = f"ip4.{50 + p}/tcp.{4000 + rng.randrange(3)}"
+    shape = rng.choice(["race", "race", "race", "dialing", "record", "opening", "opening", "success", "race-success"])
+    if rng.random() < 0.5:
+        ops.append(f"addknown {p} " + ",".join(rng.sample(others, rng.choice([1, 2]))))
+    if rng.random() < 0.3:
+        ops.append(f"substream {p}")
+    if shape in ("race", "record", "race-success"):
+        ops += [f"dialaddr {a} as=c1", f"ev established {p} c2 {inbound} listener"]
+        if shape == "record" or rng.random() < 0.7:
+            ops.append("accepted c2 ok")
+        if shape == "record":
+            ops.append(f"ev closed {p} c2")
+        ops.append(f"scores {p}")
+        ops.append(f"ev established {p} c1 {a} dialer" if shape == "race-success" else f"ev dialfail c1 {a} {k}")
+        ops.append(f"scores {p}")
+        if rng.random() < 0.5:
+            # the failed address keeps its (new) rank for the next dial
+            if shape == "race":
+                ops.append(f"ev closed {p} c2")
+            ops += [f"dial {p} as=c3", f"scores {p}"]
+    elif shape == "dialing":
+        ops += [f"dialaddr {a} as=c1", f"scores {p}", f"ev dialfail c1 {a} {k}", f"scores {p}"]
+        if rng.random() < 0.5:
+            ops += [f"dialaddr {a} as=c2", f"scores {p}", f"ev dialfail c2 {a} {rng.choice('ttan')}", f"scores {p}"]
+    elif shape == "success":
+        ops += [f"dialaddr {a} as=c1", f"scores {p}", f"ev established {p} c1 {a} dialer", f"scores {p}", "accepted c1 ok",
+                f"scores {p}"]
+    else:
+        book = [a] + rng.sample(others, rng.choice([1, 2]))
+        ops = [ops[0], f"addknown {p} " + ",".join(book), f"dial {p} as=c1", f"scores {p}"]
+        how = rng.choice(["openfail", "opened-fail", "opened-ok", "superseded"])
+        if how == "openfail":
+            ops += [f"ev openfail c1 errs=" + openfail_errs(rng, book), f"scores {p}"]
+        elif how == "superseded":
+            # an inbound connection supersedes the Opening attempt; the late open failure still concerns its addresses
+            ops += [f"ev established {p} c2 {inbound} listener", "accepted c2 ok", f"scores {p}"]
+        else:
+            x = rng.choice(book)
+            errs = [y for y in book if y != x and rng.random() < 0.6]
+            tail = (" errs=" + ",".join(f"{y}={rng.choice('tta')}" for y in errs)) if errs else ""
+            ops += [f"ev opened c1 {x}{tail}", f"scores {p}"]
+            ops += [f"ev dialfail c1 {x} {rng.choice('nt')}" if how == "opened-fail" else f"ev established {p} c1 {x} dialer",
+                    f"scores {p}"]
+    return ops
+
+
+def with_scores(ops):
+    """Put `scores <p>` right before and right after every dial outcome of a generated history (read-only lines)."""
+    res = []
+    for op in ops:
+        t = op.split()
+        peers = set()
+        if t[:2] == ["ev", "dialfail"] and len(t) > 3:
+            peers = {last_peer(t[3])}
+        elif t[:2] == ["ev", "established"] and len(t) > 5 and t[5] == "dialer" and t[2].isdigit():
+            peers = {int(t[2])}
+        elif t[:2] == ["ev", "opened"] and len(t) > 3:
+            peers = {last_peer(t[3])}
+        if t[:2] in (["ev", "opened"], ["ev", "openfail"]):
+            errs = next((x[5:] for x in t[3:] if x.startswith("errs=")), "")
+            peers |= {last_peer(x.split("=")[0]) for x in errs.split(",") if x}
+        peers = sorted(q for q in peers if q is not None)
+        res += [f"scores {q}" for q in peers] + [op] + [f"scores {q}" for q in peers]
+    return res
+
+
+def gen_score_cases(rng, tier):
+    n_script, n_rand = {"quick": (160, 60), "thorough": (6000, 3000), "search": (300, 100)}[tier]
+    for _ in range(n_script):
+        yield score_case(rng)
+    sess = Session()
+    try:
+        for _ in range(n_rand):
+            yield with_scores(gen_case(rng, sess, rng.choice([6, 10, 16]), npeers=rng.choice([2, 3]), chaos=0))
+    finally:
+        sess.close()
+
+
+def rescored_by(t):
+    """What one operation must do to the address stores, from the operation alone: [(peer, address, score)] in the
+    order the manager applies them; None = the operation is no dial outcome."""
+    if t[:2] == ["ev", "dialfail"] and len(t) == 5:
+        p = last_peer(t[3])
+        return [(p, t[3], FAIL_SCORE.get(t[4], SCORE_FAIL))] if p is not None else []
+    if t[:2] in (["ev", "openfail"], ["ev", "opened"]):
+        errs = next((x[5:] for x in t[3:] if x.startswith("errs=")), "")
+        res = []
+        for item in [x for x in errs.split(",") if x]:
+            a, _, k = item.partition("=")
+            if last_peer(a) is not None:
+                res.append((last_peer(a), a, FAIL_SCORE.get(k, SCORE_FAIL)))
+        if t[1] == "opened" and len(t) > 3 and last_peer(t[3]) is not None:
+            res.append((last_peer(t[3]), t[3], SCORE_OK))
+        return res
+    if t[:2] == ["ev", "established"] and len(t) > 5 and t[5] == "dialer" and t[2].isdigit():
+        a = t[4] if last_peer(t[4]) is not None else (f"p2p.{t[2]}" if t[4] == "-" else f"{t[4]}/p2p.{t[2]}")
+        return [(int(t[2]), a, SCORE_OK)]
+    return None
+
+
+def oracle_scores(case, out):
+    """C10 at manager level, on the observations alone: a dial outcome (DialFailure, OpenFailure, ConnectionOpened with
+    its partial errors, ConnectionEstablished of a dialed connection) re-scores EXACTLY the address(es) it names — each
+    gets the score of the outcome (CONNECTION_ESTABLISHED / CONNECTION_FAILURE / ADDRESS_FAILURE), whatever state the peer
+    is in, and no other address of any inspected peer changes. Judged where `scores <p>` lines enclose the outcome, while
+    the scripted transport keeps the Transport contract."""
+    bad = []
+    t0 = case[0].split() if case else []
+    if len(t0) != 3 or t0[0] != "limits":
+        return bad
+    g = Ghost(t0[1], t0[2])
+
+    def v(kind, msg, i):
+        bad.append({"kind": kind, "msg": msg, "step": i, "op": case[i], "out": out[i] if i < len(out) else None})
+
+    n = min(len(case), len(out))
+    last_state = {}
+    for i in range(1, n):
+        op, o = case[i].split(" -> ")[0], out[i]
+        if o in ("skipped", "bad-op") or o.startswith("panic"):
+            break
+        if o == "busy" or is_aux(op):
+            continue
+        t = base_op(op).split()
+        obs = parse_obs(o)
+        if obs is None:
+            break
+        state_before = dict(last_state)
+        allowed_before = g.contract and g.allowed(t)
+        g.update(i, op, obs)
+        last_state = obs["st"]
+        if not g.contract or g.clash:
+            break
+        exp = rescored_by(t)
+        if not exp or not allowed_before:
+            continue
+        # the `scores` lines right before and right after this operation
+        before, after = {}, {}
+        j = i - 1
+        while j >= 1 and case[j].startswith("scores "):
+            sc = parse_scores(out[j])
+            if sc is not None and case[j].split()[1].isdigit():
+                before.setdefault(int(case[j].split()[1]), sc)
+            j -= 1
+        j = i + 1
+        while j < n and case[j].startswith("scores "):
+            sc = parse_scores(out[j])
+            if sc is not None and case[j].split()[1].isdigit():
+                after.setdefault(int(case[j].split()[1]), sc)
+            j += 1
+        for p in sorted(set(before) & set(after)):
+            want = dict(before[p])
+            for q, a, score in exp:
+                if q == p:
+                    want[a] = score if a in want else (score + 1 if looks_public(a) and score < 2**31 - 1 else score)
+            if want == after[p]:
+                continue
+            st = state_before.get(p, "Disconnected")
+            for q, a, score in exp:
+                if q == p and after[p].get(a) != want[a]:
+                    what = "failure" if score < 0 else "success"
+                    v("not-rescored", f"dial {what} of {a} reported while peer {p} was {st}: its score is "
+                      f"{after[p].get(a, 'absent')} afterwards, the outcome must re-score it to {want[a]}", i)
+                    break
+            else:
+                diff = sorted(a for a in set(want) | set(after[p]) if want.get(a) != after[p].get(a))
+                v("other-address-rescored", f"the outcome of {[a for _, a, _ in exp]} changed the score of other "
+                  f"address(es) {diff} of peer {p}: {[(a, before[p].get(a), after[p].get(a)) for a in diff]}", i)
+            return bad
+    return bad
+
+
+def stats_scores(case, out, acc):
+    for op, o in zip(case, out):
+        t = op.split()
+        if t[0] == "scores":
+            bump(acc, "scores:" + ("empty" if o == "sc=-" else "some"))
+        elif t[:2] in (["ev", "dialfail"], ["ev", "openfail"], ["ev", "opened"], ["ev", "established"]):
+            ob = parse_obs(o)
+            if ob:
+                # the state the peer was left in tells which branch the outcome took
+                bump(acc, "outcome:" + t[1] + ":" + ",".join(sorted({s[:1] + ("~" if "~" in s else "+" if "+" in s else "") for s in ob["st"].values()})))
